@@ -26,6 +26,9 @@ func runMatch(_ *testing.T, c MatchCase) (*h.Violation, h.Info) {
 	lit := strings.ReplaceAll(c.Pattern, "*", "") != ""
 	special := strings.ContainsAny(c.Name, "\n\r.+()[]{}|^$?\\/") || strings.ContainsAny(c.Pattern, "\n\r.+()[]{}|^$?\\/")
 	info.NonTrivial = (hasStar && lit) || special
+	if n := strings.Count(c.Pattern, "*"); n >= 8 {
+		info.Class("stars>=8")
+	}
 	if hasStar {
 		info.Class("star")
 	} else {
@@ -82,6 +85,10 @@ func genMatchCase(rt *rapid.T) MatchCase {
 		maxPiece = 60
 	}
 	nPieces := rapid.IntRange(1, 5).Draw(rt, "npieces")
+	if rapid.IntRange(0, 9).Draw(rt, "manystars") == 0 {
+		nPieces = rapid.IntRange(6, 40).Draw(rt, "manypieces") // many '*' (also runs of '*', since pieces may be empty)
+		maxPiece = 2
+	}
 	pieces := make([]string, nPieces)
 	for i := range pieces {
 		pieces[i] = genPiece(maxPiece).Draw(rt, "piece")
@@ -328,7 +335,7 @@ func TestReplay(t *testing.T) { h.Replay(t, "C07") }
 // Native fuzz target: coverage-guided over (pattern, name); invalid UTF-8 is
 // outside the claimed domain and skipped.
 func FuzzC07Match(f *testing.F) {
-	for _, s := range [][2]string{{"*", "a\nb"}, {".*", "ab"}, {"a+", "aa"}, {"[a]", "a"}, {"\\Q*\\E", "\\Qx\\E"}, {"a*b*c", "aXbYc"}, {"dev/*", "dev/x/y"}, {"", ""}, {"**", ""}, {"a*", "a*"}, {"*a", "ba\n"}, {"(?i)a", "A"}, {"a|b", "a"}, {"^a$", "a"}, {"a$*", "a$\n"}} {
+	for _, s := range [][2]string{{"*", "a\nb"}, {".*", "ab"}, {"a+", "aa"}, {"[a]", "a"}, {"\\Q*\\E", "\\Qx\\E"}, {"a*b*c", "aXbYc"}, {"dev/*", "dev/x/y"}, {"", ""}, {"**", ""}, {"a*", "a*"}, {"*a", "ba\n"}, {"(?i)a", "A"}, {"a|b", "a"}, {"^a$", "a"}, {"a$*", "a$\n"}, {"************", "x"}, {"a*b*c*d*e*f*g*h*i*j", "abcdefghij"}} {
 		f.Add(s[0], s[1])
 	}
 	f.Fuzz(func(t *testing.T, pattern, name string) {
